@@ -236,6 +236,101 @@ fn class_labels(c: &KCase, obs: &mut Obs) {
     });
 }
 
+/// Faithful replay of the insertion algorithm of the `kdtree` crate (0.6.0: `add_unchecked`, `add_to_bucket`,
+/// `split`) in the element type `F`, with linfa-nn's default leaf size 16. Returns true when the recursion
+/// does not terminate: a bucket of more than 16 points whose widest dimension spans two adjacent floats so
+/// that `min + (max - min) / 2` rounds onto `min` sends every point to the right child again and again
+/// (stack overflow, SIGABRT - not catchable, so the real call must be avoided for such inputs).
+pub fn kdtree_build_diverges<F: Float>(x: &Array2<F>) -> bool {
+    struct Node<F> {
+        kids: Option<Box<(Node<F>, Node<F>)>>,
+        min: Vec<F>,
+        max: Vec<F>,
+        split: Option<(usize, F)>,
+        pts: Vec<Vec<F>>,
+        size: usize,
+    }
+    const CAP: usize = 16;
+    fn leaf<F: Float>(d: usize) -> Node<F> {
+        Node { kids: None, min: vec![F::infinity(); d], max: vec![F::neg_infinity(); d], split: None, pts: vec![], size: 0 }
+    }
+    fn extend<F: Float>(n: &mut Node<F>, p: &[F]) {
+        for j in 0..p.len() {
+            if p[j] < n.min[j] {
+                n.min[j] = p[j];
+            }
+            if p[j] > n.max[j] {
+                n.max[j] = p[j];
+            }
+        }
+    }
+    fn add<F: Float>(n: &mut Node<F>, p: Vec<F>, depth: usize, limit: usize) -> bool {
+        if depth > limit {
+            return false;
+        }
+        if n.kids.is_none() {
+            return add_to_bucket(n, p, depth, limit);
+        }
+        extend(n, &p);
+        n.size += 1;
+        let (dim, val) = n.split.unwrap_or((0, F::zero()));
+        let left = p[dim] < val;
+        match n.kids.as_mut() {
+            Some(k) => add(if left { &mut k.0 } else { &mut k.1 }, p, depth + 1, limit),
+            None => true,
+        }
+    }
+    fn add_to_bucket<F: Float>(n: &mut Node<F>, p: Vec<F>, depth: usize, limit: usize) -> bool {
+        if depth > limit {
+            return false;
+        }
+        extend(n, &p);
+        n.pts.push(p);
+        n.size += 1;
+        if n.size <= CAP {
+            return true;
+        }
+        // split
+        let d = n.min.len();
+        let mut widest = F::zero();
+        let mut dim = n.split.map(|s| s.0);
+        for j in 0..d {
+            let diff = n.max[j] - n.min[j];
+            if !diff.is_nan() && diff > widest {
+                widest = diff;
+                dim = Some(j);
+            }
+        }
+        let Some(dim) = dim else { return true };
+        let val = n.min[dim] + (n.max[dim] - n.min[dim]) / F::cast(2.0);
+        n.split = Some((dim, val));
+        let mut l = leaf::<F>(d);
+        let mut r = leaf::<F>(d);
+        let mut pts = std::mem::take(&mut n.pts);
+        while !pts.is_empty() {
+            let q = pts.swap_remove(0);
+            let ok = if q[dim] < val { add_to_bucket(&mut l, q, depth + 1, limit) } else { add_to_bucket(&mut r, q, depth + 1, limit) };
+            if !ok {
+                return false;
+            }
+        }
+        n.kids = Some(Box::new((l, r)));
+        true
+    }
+    let d = x.ncols();
+    if d == 0 {
+        return false;
+    }
+    let limit = x.nrows() + 8;
+    let mut root = leaf::<F>(d);
+    for row in x.rows() {
+        if !add(&mut root, row.to_vec(), 0, limit) {
+            return true;
+        }
+    }
+    false
+}
+
 /// the record matrix handed to linfa, in f64 (already rounded to f32 when the case is single precision)
 pub fn actual_records(c: &KCase) -> Mat {
     c.x.iter()
@@ -419,9 +514,23 @@ fn check_kernel_t<F: Float>(c: &KCase, prec: Prec, obs: &mut Obs) {
     );
     obs.nontrivial_if(asym);
 
+    // The kd-tree build of the `kdtree` crate recurses without bound on some inputs (see
+    // `kdtree_build_diverges`); the process would die, so the call is replaced by a recorded failure.
+    let kd_trap = kdtree_build_diverges(&x);
+    obs.class_if(kd_trap, "kdtree_unsplittable_bucket");
     let mut patterns: Vec<(&'static str, Vec<Vec<bool>>)> = vec![];
     for nn in [CommonNearestNeighbour::LinearSearch, CommonNearestNeighbour::KdTree, CommonNearestNeighbour::BallTree] {
         let name = nn_name(&nn);
+        if kd_trap && matches!(nn, CommonNearestNeighbour::KdTree) {
+            obs.fail(
+                "kdtree:build-recursion-unbounded",
+                format!(
+                    "sparse kernel with the KdTree index on {n} records (k = {k}): more than 16 records lie within one ulp of each other and the split value min + (max - min)/2 rounds onto min, so kdtree::add_to_bucket recurses until the stack overflows (call not made; records {:?})",
+                    recs
+                ),
+            );
+            continue;
+        }
         let what = format!("build-sparse:{name}");
         let Some((ks, targets_ok)) = obs.call(&what, || build::<F>(&x, &method, KernelType::Sparse(k), nn.clone(), c.path)) else { continue };
         obs.ensure(targets_ok, "build:targets-changed", || "the dataset transform did not hand the targets through unchanged".into());
